@@ -355,3 +355,118 @@ func bulkByIdCells(c *Ctx, dr *Driver, be string) bool {
 	}
 	return true
 }
+
+// binaryReadBack (C11, on the implementation alone: the protocol carries no binary values): documents holding binary
+// values - empty but not nil, one byte, many - at the top level, in a nested map, in an array and in a map inside an
+// array are written by Insert and then re-saved by Update / UpdateFunc / UpdateById of an unrelated field; after every
+// step FindById and FindAll return them with the same types and bytes (an empty []byte stays an empty []byte).
+func binaryReadBack(c *Ctx, be string) bool {
+	im := NewImpl(be, c.Scratch)
+	defer im.Destroy()
+	db := im.db
+	db.CreateCollection("bb")
+	var show func(v interface{}) string
+	show = func(v interface{}) string {
+		switch x := v.(type) {
+		case nil:
+			return "nil"
+		case []byte:
+			if x == nil {
+				return "B(nil)"
+			}
+			return fmt.Sprintf("B%x", x)
+		case map[string]interface{}:
+			keys := []string{}
+			for k := range x {
+				keys = append(keys, k)
+			}
+			sortStrings(keys)
+			parts := []string{}
+			for _, k := range keys {
+				parts = append(parts, k+"="+show(x[k]))
+			}
+			return "{" + strings.Join(parts, ",") + "}"
+		case []interface{}:
+			parts := []string{}
+			for _, e := range x {
+				parts = append(parts, show(e))
+			}
+			return "[" + strings.Join(parts, ",") + "]"
+		}
+		return fmt.Sprintf("%T:%v", v, v)
+	}
+	mk := func(i int, b []byte) map[string]interface{} {
+		cp := func() []byte { return append([]byte{}, b...) }
+		return map[string]interface{}{"_id": fixedId(699800 + i), "top": cp(), "m": map[string]interface{}{"b": cp()}, "l": []interface{}{cp(), map[string]interface{}{"z": cp()}}, "k": int64(0)}
+	}
+	blobs := [][]byte{{}, {0}, {1, 2, 3}, []byte(strings.Repeat("x", 300))}
+	want := map[string]string{}
+	for i, b := range blobs {
+		m := mk(i, b)
+		if err := db.Insert("bb", d.NewDocumentOf(m)); err != nil {
+			c.Violation(&Replay{Backend: be, Stream: "binary-read-back", Case: []interface{}{J{"k": "insert", "blob": i}}, Actual: []string{err.Error()}, Note: "Insert of a document holding binary values failed"})
+			return false
+		}
+		delete(m, "k")
+		want[fixedId(699800+i)] = show(m)
+	}
+	verify := func(step string) bool {
+		c.Evals++
+		docs, err := db.FindAll(query.NewQuery("bb"))
+		if err != nil || len(docs) != len(blobs) {
+			c.Violation(&Replay{Backend: be, Stream: "binary-read-back", Case: []interface{}{J{"k": step}}, Actual: []string{fmt.Sprint(err, len(docs))}, Note: "FindAll failed after " + step})
+			return false
+		}
+		for _, doc := range docs {
+			byId, _ := db.FindById("bb", doc.ObjectId())
+			for _, got := range []*d.Document{doc, byId} {
+				if got == nil {
+					continue
+				}
+				m := got.ToMap()
+				delete(m, "k")
+				if show(m) != want[doc.ObjectId()] {
+					c.Violation(&Replay{Backend: be, Stream: "binary-read-back", Case: []interface{}{J{"k": step, "id": doc.ObjectId()}}, Expected: []string{want[doc.ObjectId()]}, Actual: []string{show(m)},
+						Note: "a document holding binary values is not read back as it was written, after " + step})
+					return false
+				}
+			}
+		}
+		return true
+	}
+	if !verify("insert") {
+		return false
+	}
+	db.Update(query.NewQuery("bb"), map[string]interface{}{"k": int64(1)})
+	if !verify("Update of an unrelated field") {
+		return false
+	}
+	db.UpdateFunc(query.NewQuery("bb"), func(doc *d.Document) *d.Document { doc.Set("k", int64(2)); return doc })
+	if !verify("UpdateFunc of an unrelated field") {
+		return false
+	}
+	for i := range blobs {
+		db.UpdateById("bb", fixedId(699800+i), func(doc *d.Document) *d.Document { doc.Set("k", int64(3)); return doc })
+	}
+	if !verify("UpdateById of an unrelated field") {
+		return false
+	}
+	if be != "badger-mem" {
+		im.Close()
+		im.open()
+		db = im.db
+		if !verify("reopen") {
+			return false
+		}
+	}
+	c.Count("binary-read-back")
+	return true
+}
+
+func sortStrings(s []string) {
+	for i := 1; i < len(s); i++ {
+		for j := i; j > 0 && s[j] < s[j-1]; j-- {
+			s[j], s[j-1] = s[j-1], s[j]
+		}
+	}
+}
